@@ -68,6 +68,9 @@ def ident(n):
     return "".join(c if c.isalnum() else "_" for c in n)
 
 
+CLASS_WIRES = {}
+
+
 def class_row(name, cls, stats):
     ufn = conv.get_unstructure_hook(cls)
     uo = getattr(ufn, "overrides", None)
@@ -109,6 +112,7 @@ def class_row(name, cls, stats):
         fs.append("{| fname := %s; fwire := %s; fwireo := %s; ftype := %s; fdefault := %s; fval := %s; fvalopt := %s; fomit := %s |}"
                   % (q(a.name), q(win), q(wout), ty(a.type), d, vk, b(opt), b(omit)))
         stats["fields"] += 1
+        CLASS_WIRES.setdefault(name, []).append(wout)
     if poisoned:
         fs.append("{| fname := \"cattrs_cannot_generate_structure_fn\"; fwire := \"\\u0000cattrs\"; fwireo := \"\\u0000cattrs\"; ftype := (PyFwd \"<no structure function>\"); "
                   "fdefault := NoDefault; fval := VNoVal; fvalopt := false; fomit := false |}")
@@ -164,7 +168,8 @@ def cond(c, var):
             return "(CLenEq0 %s)" % hexpr(l.args[0], var)
     if isinstance(c, ast.Call) and isinstance(c.func, ast.Name) and c.func.id == "isinstance" and len(c.args) == 2:
         t = ast.unparse(c.args[1])
-        if t in PRIMS:
+        if t in PRIMS or (isinstance(c.args[1], ast.Tuple) and all(isinstance(e, ast.Name) for e in c.args[1].elts)
+                          and {e.id for e in c.args[1].elts} == {"bool", "int", "str", "float"}):
             return "(CIsPrim %s)" % hexpr(c.args[0], var)
         if t == "str":
             return "(CIsStr %s)" % hexpr(c.args[0], var)
@@ -279,8 +284,60 @@ def terminal(stmts):
     return isinstance(l, (ast.Return, ast.Raise)) or (isinstance(l, ast.If) and terminal(l.body) and terminal(l.orelse))
 
 
+def is_literal(e):
+    """a constant: strings, numbers, None, lsp_types attributes and the primitive type names, in tuples / lists / dicts"""
+    if isinstance(e, ast.Constant):
+        return True
+    if isinstance(e, ast.Attribute):
+        return ast.unparse(e).startswith("lsp_types.")
+    if isinstance(e, ast.Name):
+        return e.id in ("bool", "int", "str", "float", "list", "dict")
+    if isinstance(e, (ast.Tuple, ast.List)):
+        return all(is_literal(x) for x in e.elts)
+    if isinstance(e, ast.Dict):
+        return all(k_ is not None and is_literal(k_) for k_ in e.keys) and all(is_literal(v_) for v_ in e.values)
+    return False
+
+
+class _Fold(ast.NodeTransformer):
+    """constant folding of conditional expressions / not / and / or whose test is a boolean constant"""
+    def visit_IfExp(self, node):
+        self.generic_visit(node)
+        if isinstance(node.test, ast.Constant) and isinstance(node.test.value, bool):
+            return node.body if node.test.value else node.orelse
+        return node
+
+    def visit_UnaryOp(self, node):
+        self.generic_visit(node)
+        if isinstance(node.op, ast.Not) and isinstance(node.operand, ast.Constant) and isinstance(node.operand.value, bool):
+            return ast.Constant(value=not node.operand.value)
+        return node
+
+    def visit_BoolOp(self, node):
+        self.generic_visit(node)
+        vals = []
+        for v_ in node.values:
+            if isinstance(v_, ast.Constant) and isinstance(v_.value, bool):
+                if isinstance(node.op, ast.And) and not v_.value:
+                    return ast.Constant(value=False) if not vals else ast.BoolOp(op=node.op, values=vals + [v_])
+                if isinstance(node.op, ast.Or) and v_.value:
+                    return ast.Constant(value=True) if not vals else ast.BoolOp(op=node.op, values=vals + [v_])
+                continue
+            vals.append(v_)
+        if not vals:
+            return ast.Constant(value=isinstance(node.op, ast.And))
+        return vals[0] if len(vals) == 1 else ast.BoolOp(op=node.op, values=vals)
+
+
+def fold(e):
+    return _Fold().visit(copy.deepcopy(e))
+
+
 def static_truth(t):
-    """x is None / x is not None where x is the constant None or an lsp_types attribute (after substitution of a table lookup)"""
+    """a boolean constant; x is None / x is not None where x is the constant None or an lsp_types attribute (after substitution of a table lookup)"""
+    t = fold(t)
+    if isinstance(t, ast.Constant) and isinstance(t.value, bool):
+        return t.value
     if isinstance(t, ast.Compare) and len(t.ops) == 1 and isinstance(t.ops[0], (ast.Is, ast.IsNot)) \
             and isinstance(t.comparators[0], ast.Constant) and t.comparators[0].value is None:
         l = t.left
@@ -304,6 +361,32 @@ for _n in ast.walk(tree):
 tables = {k_: v_ for k_, v_ in tables.items() if v_ is not None}
 
 
+def used_on_every_returning_path(stmts, name):
+    """syntactic, conservative: does every path through stmts that ends in `return` evaluate `name`?"""
+    def uses(e):
+        return e is not None and any(isinstance(n, ast.Name) and n.id == name for n in ast.walk(e))
+    for i, st in enumerate(stmts):
+        if isinstance(st, ast.Expr) and isinstance(st.value, ast.Constant):
+            continue
+        if isinstance(st, ast.Raise):
+            return True
+        if isinstance(st, ast.Return):
+            return uses(st.value)
+        if isinstance(st, ast.Assign):
+            if uses(st.value):
+                return True
+            continue
+        if isinstance(st, (ast.If, ast.Assert)):
+            if uses(st.test):
+                return True
+            if isinstance(st, ast.If):
+                rest = list(stmts[i + 1:])
+                return used_on_every_returning_path(list(st.body) + rest, name) and used_on_every_returning_path(list(st.orelse) + rest, name)
+            continue
+        return False
+    return False          # falls off the end: returns None without touching the name
+
+
 def block(stmts, var, k, env=None):
     env = env or {}
     if not stmts:
@@ -319,16 +402,59 @@ def block(stmts, var, k, env=None):
         name = s.targets[0].id
         if any(isinstance(n, ast.Name) and n.id == name and isinstance(n.ctx, ast.Store) for st in rest for n in ast.walk(st)):
             raise Reject("local %s assigned more than once" % name)
-        val = subst(s.value, env)
-        kk = block(rest, var, k, dict(env, **{name: val}))
+        val = fold(subst(s.value, env))
+        if is_literal(val):
+            return block(rest, var, k, dict(env, **{name: val}))       # a constant cannot raise: nothing to force
+        is_cond = True
+        try:
+            cc = cond(val, var)
+        except Reject:
+            is_cond = False
+        if is_cond:
+            # a condition bound to a name: evaluated ONCE here; each continuation sees the name as the constant it evaluated to
+            # (so `A if flag else B` further down folds away and the translation is the hook's decision tree itself)
+            kt = block(rest, var, k, dict(env, **{name: ast.Constant(value=True)}))
+            kf = block(rest, var, k, dict(env, **{name: ast.Constant(value=False)}))
+            return "(TIf %s %s %s)" % (cc, kt, kf)
         if isinstance(val, ast.IfExp):
-            force = cond(val.test, var)
-        else:
-            try:
-                force = cond(val, var)
-            except Reject:
-                force = "(CIsNone %s)" % hexpr(val, var)
+            # name = A if c else B: c is evaluated once, here; each continuation sees the branch it selected
+            kt = block([ast.Assign(targets=[ast.Name(id=name, ctx=ast.Store())], value=val.body)] + list(rest), var, k, env)
+            kf = block([ast.Assign(targets=[ast.Name(id=name, ctx=ast.Store())], value=val.orelse)] + list(rest), var, k, env)
+            return "(TIf %s %s %s)" % (cond(val.test, var), kt, kf)
+        kk = block(rest, var, k, dict(env, **{name: val}))
+        if used_on_every_returning_path(rest, name):
+            # the continuation evaluates the bound expression itself on every path that returns: an error of the binding is an
+            # error of the hook either way (the model does not distinguish which exception is raised), nothing to force
+            return kk
+        force = "(CIsNone %s)" % hexpr(val, var)
         return "(TIf %s %s %s)" % (force, kk, kk)
+    if (isinstance(s, ast.Assign) and len(s.targets) == 1 and isinstance(s.targets[0], ast.Tuple) and isinstance(s.value, ast.Tuple)
+            and len(s.targets[0].elts) == len(s.value.elts) and all(isinstance(t_, ast.Name) for t_ in s.targets[0].elts)):
+        # a, b = (x, y): the right-hand sides are evaluated left to right before any name is bound: as successive bindings this is
+        # the same as long as no right-hand side mentions a name bound by the same statement
+        names_ = [t_.id for t_ in s.targets[0].elts]
+        if any(isinstance(n, ast.Name) and n.id in names_ for v_ in s.value.elts for n in ast.walk(v_)):
+            raise Reject("tuple assignment whose right-hand side uses its own targets")
+        seq = [ast.Assign(targets=[ast.Name(id=nm, ctx=ast.Store())], value=v_) for nm, v_ in zip(names_, s.value.elts)]
+        return block(seq + list(rest), var, k, env)
+    if isinstance(s, ast.For) and not s.orelse:
+        # for a, b in <literal table>: ... — unrolled (the table is a constant after substitution of closure values)
+        it = fold(subst(s.iter, env))
+        if not (isinstance(it, (ast.Tuple, ast.List)) and is_literal(it)):
+            raise Reject("loop over something that is not a constant table: " + ast.unparse(s.iter))
+        tg = s.target
+        unrolled = []
+        for elt in it.elts:
+            if isinstance(tg, ast.Name):
+                b = {tg.id: elt}
+            elif isinstance(tg, ast.Tuple) and isinstance(elt, (ast.Tuple, ast.List)) and len(tg.elts) == len(elt.elts) and all(isinstance(t_, ast.Name) for t_ in tg.elts):
+                b = {t_.id: e_ for t_, e_ in zip(tg.elts, elt.elts)}
+            else:
+                raise Reject("loop target outside grammar: " + ast.unparse(tg))
+            if any(isinstance(n, (ast.Break, ast.Continue)) for st in s.body for n in ast.walk(st)):
+                raise Reject("break/continue in a hook loop")
+            unrolled += [_Subst(b).visit(copy.deepcopy(st)) for st in s.body]
+        return block(unrolled + list(rest), var, k, env)
     if (isinstance(s, ast.Assign) and len(s.targets) == 1 and isinstance(s.targets[0], ast.Name) and isinstance(s.value, ast.Call)
             and isinstance(s.value.func, ast.Attribute) and s.value.func.attr == "get" and isinstance(s.value.func.value, ast.Name)
             and len(s.value.args) == 1 and not s.value.keywords and s.value.func.value.id in tables):
@@ -342,7 +468,7 @@ def block(stmts, var, k, env=None):
             r = "(TIf (CEqStr %s %s) %s %s)" % (hexpr(key, var), q(kstr), block(rest, var, k, dict(env, **{name: vexpr})), r)
         return r
     if env:
-        s = _Subst(env).visit(copy.deepcopy(s)) if not isinstance(s, (ast.If,)) else ast.If(test=subst(s.test, env), body=s.body, orelse=s.orelse)
+        s = fold(_Subst(env).visit(copy.deepcopy(s))) if not isinstance(s, (ast.If,)) else ast.If(test=fold(subst(s.test, env)), body=s.body, orelse=s.orelse)
     if isinstance(s, ast.Return):
         return "(TRet %s)" % (rexpr(s.value, var) if s.value is not None else "RNone")
     if isinstance(s, ast.Raise):
@@ -375,7 +501,53 @@ def hook_of(func):
     n = cands[0]
     if len(n.args.args) != 2 or n.decorator_list:
         raise Reject("hook signature " + name)
-    return block(n.body, n.args.args[0].arg, "(TRet RNone)")
+    return block(n.body, n.args.args[0].arg, "(TRet RNone)", closure_env(func, n))
+
+
+def value_ast(v, depth=0):
+    """AST of a run-time constant a hook closes over (classes of lsp_types, the primitive types, strings / numbers / None, tuples,
+    lists and dicts of those); None when the value is anything else (the name then stays as it is)"""
+    if depth > 4:
+        return None
+    if isinstance(v, type):
+        if v in (bool, int, str, float, list, dict):
+            return ast.Name(id=v.__name__, ctx=ast.Load())
+        if getattr(T, v.__name__, None) is v:
+            return ast.parse("lsp_types.%s" % v.__name__, mode="eval").body
+        return None
+    if v is None or isinstance(v, (str, int, float, bool)):
+        return ast.Constant(value=v)
+    if isinstance(v, (tuple, list)):
+        elts = [value_ast(x, depth + 1) for x in v]
+        if any(e is None for e in elts):
+            return None
+        return (ast.Tuple if isinstance(v, tuple) else ast.List)(elts=elts, ctx=ast.Load())
+    if isinstance(v, dict) and all(isinstance(k, str) for k in v):
+        vals = [value_ast(x, depth + 1) for x in v.values()]
+        if any(e is None for e in vals):
+            return None
+        return ast.Dict(keys=[ast.Constant(value=k) for k in v], values=vals)
+    return None
+
+
+def closure_env(func, node):
+    """constants the hook function closes over or reads from module globals, as ASTs to substitute (a hook produced by a factory
+    `make(options_type)` is the factory's inner function with `options_type` bound in its closure)"""
+    env = {}
+    cells = dict(zip(func.__code__.co_freevars, [c.cell_contents for c in (func.__closure__ or ()) if True])) if func.__closure__ else {}
+    params = {a.arg for a in node.args.args}
+    for n_ in ast.walk(node):
+        if isinstance(n_, ast.Name) and isinstance(n_.ctx, ast.Load) and n_.id not in params and n_.id not in env and n_.id not in ("converter", "lsp_types"):
+            if n_.id in cells:
+                v = cells[n_.id]
+            elif n_.id in func.__globals__ and n_.id not in funcs:
+                v = func.__globals__[n_.id]
+            else:
+                continue
+            a = value_ast(v)
+            if a is not None:
+                env[n_.id] = a
+    return env
 
 
 class Rec(cattrs.Converter):
@@ -551,7 +723,7 @@ def main(out_v, out_json):
     methods = {}
     for m, tup in getattr(T, "METHOD_TO_TYPES", {}).items():
         methods[m] = [getattr(x, "__name__", None) if isinstance(x, type) else None for x in tup[:2]]
-    json.dump({"stats": stats, "classes": cls_names, "enums": enum_names, "methods": methods, "unions": utbl,
+    json.dump({"stats": stats, "classes": cls_names, "enums": enum_names, "methods": methods, "unions": utbl, "class_fields": CLASS_WIRES,
                "detailed_validation": bool(getattr(conv, "detailed_validation", True))}, open(out_json, "w"))
     print(json.dumps(stats))
 
